@@ -74,8 +74,32 @@ func TestC10_Precedence(t *testing.T) {
 		vals := make([]jv.Val, 3)
 		var ms []jv.Member
 		atoms := make([]ast.Expr, 3)
+		// arithmetic is not associative once results round or overflow: for
+		// two operators of the same arithmetic level the values are often
+		// taken from triples on which the two groupings differ
+		arith := func(o string) int {
+			switch o {
+			case "+", "-":
+				return 1
+			case "*", "/":
+				return 2
+			}
+			return 0
+		}
+		var triple []string
+		if arith(o1.op) != 0 && arith(o2.op) != 0 && rapid.Bool().Draw(t, "nonassoc") {
+			triple = gen.Pick(t, "triple", [][]string{
+				{"1e35", "-1e35", "1"}, {"1", "1e35", "-1e35"}, {"9e6144", "9e6144", "-9e6144"}, {"9e6144", "-9e6144", "9e6144"}, {"1e-6176", "1e6144", "1e100"},
+				{"1", "3", "3"}, {"10", "3", "3"}, {"9e6144", "10", "10"}, {"1e-6170", "1e-10", "1e10"}, {"2", "1e6144", "1e-6144"}, {"0.1", "0.2", "0.3"},
+				{"5000000000000000000000000000000001", "0.5", "0.5"}, {"1e34", "1", "-1e34"}, {"7", "1e34", "1e34"}, {"1e6144", "1e6144", "2"},
+			})
+		}
 		for i, name := range []string{"a", "b", "c"} {
-			v, err := jv.ParseJSON(gen.Pick(t, "val-"+name, c10Vals))
+			valText := gen.Pick(t, "val-"+name, c10Vals)
+			if triple != nil {
+				valText = triple[i]
+			}
+			v, err := jv.ParseJSON(valText)
 			if err != nil {
 				t.Fatalf("HARNESS-BUG: %v", err)
 			}
